@@ -45,14 +45,17 @@ func verifSeriesFile(names [][]byte, tags []models.Tags) (*tsdb.SeriesFile, []ui
 // predicate over _measurement (\x00) and host is true of it.
 func VerifC16_IndexPath() {
 	n := vrt.Bound("LEN", 1)
-	M := verifStr("m", vrt.Choose("mlen", 1, n))
+	M := verifStr("m", vrt.Choose("mlen", 1, vrt.Bound("MLEN", n)))
 	H := verifStr("h", vrt.Choose("hlen", 1, n))
 	L1 := verifStr("l1", vrt.Choose("l1len", 1, n))
 	L2 := verifStr("l2", vrt.Choose("l2len", 1, n))
 	hostEq1, mEq1, mEq2 := H == L1, M == L1, M == L2
 	var root *datatypes.Node
 	var want bool
-	switch vrt.Choose("shape", 0, 4) {
+	switch vrt.Choose("shape", 0, 5) {
+	case 5: // a one-byte tag key the series does not carry (whatever the measurement name looks like)
+		T := verifStr("t", 1)
+		root, want = verifCmp(verifEQ, verifTagRef(T), verifLit(L1)), false
 	case 0:
 		root, want = verifCmp(verifEQ, verifTagRef("\x00"), verifLit(L1)), mEq1
 	case 1:
